@@ -152,7 +152,9 @@ def print_assumptions(prop_id, module, thms):
         elif cur is not None:
             if line.startswith("Closed under the global context") or line.startswith("Axioms:"):
                 continue
-            m2 = re.match(r"^([A-Za-z0-9_.']+)\s*:", line)
+            # an axiom is printed as `name : type` or, when long, as `name` alone followed by an
+            # indented `  : type` continuation
+            m2 = re.match(r"^([A-Za-z_][A-Za-z0-9_.']*)\s*(:.*)?$", line)
             if m2:
                 res[cur].append(m2.group(1))
     return res
